@@ -2,6 +2,7 @@
 package lg
 
 import (
+	"bytes"
 	"fmt"
 	"strconv"
 	"strings"
@@ -97,6 +98,25 @@ func (w *World) Check() string {
 		want := strconv.Itoa(w.All[len(w.All)-1-i])
 		if got[i] != want {
 			return fmt.Sprintf("GetLogs[%d] = entry %s, want entry %s (newest first, %d written, capacity %d); head %v", i, got[i], want, len(w.All), logging.BufferSize, head(got))
+		}
+	}
+	// the buffer's other read path: WriteLogs (what the HTTP handlers serve) prints one line per retained entry
+	var buf bytes.Buffer
+	w.ML.WriteLogs(&buf, 0)
+	var msgs []string
+	for _, l := range strings.Split(buf.String(), "\n") {
+		if l == "" {
+			continue
+		}
+		f := strings.Split(l, "\t")
+		msgs = append(msgs, f[len(f)-1])
+	}
+	if len(msgs) != n {
+		return fmt.Sprintf("WriteLogs printed %d entries, the %d most recent of %d written are expected; head %v", len(msgs), n, len(w.All), head(msgs))
+	}
+	for i := 0; i < n; i++ {
+		if want := strconv.Itoa(w.All[len(w.All)-1-i]); msgs[i] != want {
+			return fmt.Sprintf("WriteLogs line %d is entry %s, want entry %s (newest first, %d written, capacity %d); head %v", i, msgs[i], want, len(w.All), logging.BufferSize, head(msgs))
 		}
 	}
 	return ""
